@@ -22,9 +22,9 @@ suite_ok=yes; echo "$suite" | grep -q "FAILED\|[1-9][0-9]* failed" && suite_ok=n
 if [ -n "$demo" ]; then
   feat=""; grep -q "bench_testable" $sd/notes.md 2>/dev/null && feat="--features bench_testable"
   cp $demo tests/seeded_demo.rs
-  with=$(timeout 900 cargo test --offline $feat --test seeded_demo 2>&1 | grep -E "^test result|error(\[|:)" | head -3 | tr '\n' ' ')
+  with=$(timeout 900 cargo test --offline $feat --test seeded_demo 2>&1 | grep -E "^test result|^error(\[|:)" | tail -3 | tr '\n' ' ')
   git checkout -q -- src
-  without=$(timeout 900 cargo test --offline $feat --test seeded_demo 2>&1 | grep -E "^test result|error(\[|:)" | head -3 | tr '\n' ' ')
+  without=$(timeout 900 cargo test --offline $feat --test seeded_demo 2>&1 | grep -E "^test result|^error(\[|:)" | tail -3 | tr '\n' ' ')
 else
   with="(no demo file)"; without="(no demo file)"
 fi
